@@ -47,7 +47,9 @@ CertCases ==
     [ctype : {"user", "host", "other"},   \* type field in the certificate
      want  : {"user", "host", "any"},     \* the use it is validated for
      now   : Nows,
-     princ : SUBSET {"p", "q"},           \* principals listed
+     princ : SUBSET {"p", "q", "odd"},    \* principals listed; "odd" = listed names that
+                                          \* are never the wanted one (empty string, blank,
+                                          \* look-alikes, duplicates, very long, non-ASCII)
      wantp : {"none", "p", "q"},          \* principal asked for
      crit  : SUBSET CritNames,            \* critical options present
      ext   : {"none", "empty", "wrapped"},\* an unknown *extension* (ignored)
@@ -91,7 +93,8 @@ Line == [pat : {"match", "nomatch", "neg"},    \* principals pattern list vs wan
 Line2 == {l \in Line : /\ l.pat \in {"match", "nomatch"} /\ l.ns \in {"absent", "nomatch"}
                        /\ l.va = "absent" /\ l.vb = "set" /\ l.key \in {"signer", "ca"}}
 
-Signers == {"key", "cert_ok", "cert_expired", "cert_princ"}
+\* cert_odd: the certificate lists only odd names (e.g. the empty string)
+Signers == {"key", "cert_ok", "cert_expired", "cert_princ", "cert_odd"}
 
 SigCasesFull ==      \* untampered signature: every line
     [msg : {"same"}, nsblob : {"same"}, signer : Signers, now : Nows,
